@@ -310,3 +310,13 @@ Definition expected_load_error_report (present : bool) : list string :=
         "cleared-by:clear_engine_cache"; "called-in-except:get_all_rules"; "called-in-except:get_tag_only_rules";
         "called-in-except:get_transforms"]
   else [].
+
+(* The part of a history an operation may depend on at all: a load, an engine.parse and an expression evaluation
+   on nothing; a classification on the last load; engine.match on the last engine.parse.  (Sharper than
+   [replay_prefix]: the harness compares every operation with a fresh process that replayed only this.) *)
+Definition relevant_prefix (W : world) (h : list (op W)) (o : op W) : list (op W) :=
+  match o with
+  | Classify _ => match last_load W h with Some f => [Load f] | None => [] end
+  | EngMatch _ => match last_parse W h with Some f => [EngParse f] | None => [] end
+  | _ => []
+  end.
